@@ -495,7 +495,7 @@ def gen_world_c16(rng, i):
     """argument validation and degenerate-but-loadable torrents"""
     w = gen_world(rng, ntorrents=rng.choice([1, 2]))
     k = i % 11
-    root_rel = lambda comps: "/".join(c.decode() for c in comps)
+    root_rel = lambda comps: "/".join(c.decode() for c in comps) or "."      # the sandbox root itself, relatively: "."
     if k == 0:
         w.scan_args = None; w.export_arg = root_rel(w.export); w.tag = "export relative"
     elif k == 1:
